@@ -79,6 +79,15 @@ Section U.
     - apply dir_get_del_other; auto.
   Qed.
 
+  Lemma noroot_policies : forall now ex srv,
+    fetch_noroot H Offline now ex srv = (OMiss, 0) /\
+    snd (fetch_noroot H Normal now ex srv) = 1 /\ snd (fetch_noroot H Refresh now ex srv) = 1 /\
+    fetch_noroot H Normal now ex srv = fetch_noroot H Refresh now ex srv.
+  Proof.
+    intros now ex srv. unfold fetch_noroot, fetch. cbn [read_cache policy_eqb].
+    repeat split; unfold fetch_net; destruct srv; try destruct ex; try destruct (str_eqb _ _); reflexivity.
+  Qed.
+
   (* the history of one URL inside a history over several URLs is the single-URL history of its own steps *)
   Lemma run_urls_projects : forall u steps d,
     answers_of u steps (fst (run_urls H steps d)) = fst (run H (steps_of u steps) (dir_get u d)) /\
